@@ -72,6 +72,7 @@ def findings(repo, prog):
         _g14(f, out)
         _g15(f, out)
         _g16(f, out)
+        _g4d(f, out)
         _g5b(f, out)
         _g4c(f, out)
     _g1(repo, prog, out)
@@ -826,6 +827,91 @@ def _g4c(f, out):
                            '%s is compared with None in this function (line %d), so it may be None, but '
                            'len(%s) is evaluated where no non-None fact dominates: TypeError'
                            % (name, tested[name][0].lineno, name), '%s: len(%s)' % (f.qual, name)))
+
+
+# --------------------------------------------------------------------------- G17
+
+
+def loop_shadowing(fnode):
+    """a for-loop target re-binds a name that holds a value computed before the loop, and that
+    name is read again after the loop without having been assigned in between: after the loop
+    it denotes the last element, not the earlier value.  Yields (read node, name, loop)."""
+    if not isinstance(fnode, (ast.FunctionDef, ast.AsyncFunctionDef)):
+        return
+    body_nodes = list(walk_fn(fnode))
+    assigns = {}
+    for st in body_nodes:
+        if isinstance(st, (ast.Assign, ast.AugAssign, ast.AnnAssign)):
+            tg = st.targets if isinstance(st, ast.Assign) else [st.target]
+            for t in tg:
+                for n in ast.walk(t):
+                    if isinstance(n, ast.Name) and isinstance(n.ctx, ast.Store):
+                        assigns.setdefault(n.id, []).append(st.lineno)
+    params = {a.arg for a in fnode.args.args} | {a.arg for a in fnode.args.kwonlyargs}
+    for lp in [l for l in body_nodes if isinstance(l, ast.For)]:
+        tnames = {n.id for n in ast.walk(lp.target) if isinstance(n, ast.Name)}
+        end = max(getattr(n, 'end_lineno', getattr(n, 'lineno', lp.lineno)) or lp.lineno for n in ast.walk(lp))
+        # only loops at function level or in a block whose continuation is the rest of the function
+        for name in sorted(tnames):
+            before = [ln for ln in assigns.get(name, []) if ln < lp.lineno] or ([fnode.lineno] if name in params else [])
+            if not before or name == '_':
+                continue
+            reads = [n for n in body_nodes if isinstance(n, ast.Name) and n.id == name and isinstance(n.ctx, ast.Load)
+                     and n.lineno > end]
+            for rd in reads:
+                between = [ln for ln in assigns.get(name, []) if end < ln <= rd.lineno]
+                inner_loops = [l2 for l2 in body_nodes if isinstance(l2, ast.For) and l2 is not lp and
+                               name in {x.id for x in ast.walk(l2.target) if isinstance(x, ast.Name)} and
+                               l2.lineno > end and any(rd is x for x in ast.walk(l2))]
+                if not between and not inner_loops:
+                    yield rd, name, lp
+                    break
+
+
+# --------------------------------------------------------------------------- G4d
+
+
+def loop_var_none_deref(fnode):
+    """a loop variable that the loop body itself compares with None (so the sequence may hold
+    None placeholders) has an attribute read on a path of the body on which no `is not None` fact
+    holds.  Per path (E7).  Yields (attribute node, variable, path text)."""
+    from . import symex
+    for lp in [l for l in walk_fn(fnode) if isinstance(l, ast.For) and isinstance(l.target, ast.Name)]:
+        v = lp.target.id
+        if not any(isinstance(c, ast.Compare) and len(c.ops) == 1 and isinstance(c.ops[0], (ast.Is, ast.IsNot))
+                   and isinstance(c.left, ast.Name) and c.left.id == v and isinstance(c.comparators[0], ast.Constant)
+                   and c.comparators[0].value is None for st in lp.body for c in ast.walk(st)):
+            continue
+        if any(isinstance(x, ast.Name) and x.id == v and isinstance(x.ctx, ast.Store) for st in lp.body for x in ast.walk(st)):
+            continue
+        try:
+            cases = symex.Walker(is_sink=lambda n: isinstance(n, ast.Attribute) and isinstance(n.value, ast.Name)
+                                 and n.value.id == v and isinstance(n.ctx, ast.Load),
+                                 sink_types=(ast.Attribute,)).run_block(lp.body)
+        except (symex.TooManyPaths, RecursionError):
+            continue
+        seen = set()
+        for cs in cases:
+            if id(cs.node) in seen:
+                continue
+            atoms = []
+            for t, pol in list(cs.conds) + [(t_, p_) for t_, p_ in short_circuit_facts(cs.node)]:
+                atoms.extend((unparse(a), ap) for a, ap in symex._atoms(t, pol))
+            ok = any((t == v + ' is not None' and p) or (t == v + ' is None' and not p) or (t == v and p)
+                     or (t.startswith('isinstance(%s,' % v) and p) for t, p in atoms)
+            if not ok:
+                seen.add(id(cs.node))
+                yield cs.node, v, ' & '.join(cs.cond_src())[-120:]
+
+
+def _g4d(f, out):
+    if not isinstance(f.node, (ast.FunctionDef, ast.AsyncFunctionDef)):
+        return
+    for x, v, path in loop_var_none_deref(f.node):
+        out.append(Finding('G4', 'REFUTED', f.mod, enclosing_stmt(x) or x, f.key,
+                           'the loop compares %s with None (the list may hold None placeholders) but reads %s on the path '
+                           '[%s], where it may still be None: AttributeError' % (v, short(x, 40), path),
+                           '%s: %s on a possibly-None element' % (f.qual, short(x, 40))))
 
 
 # --------------------------------------------------------------------------- G5b
